@@ -58,15 +58,17 @@ structure ASet where
 
 def upd {α} (f : Nat → α) (d : Nat) (v : α) : Nat → α := fun x => if x = d then v else f x
 
-/-- the switch gate: `x <= cur && (cur < tol || x <= cur - tol)` -/
+/-- the switch gate against a non-nil cached best: `x <= cur && (cur < tol || x <= cur - tol)`
+(with no cached best an alive measured dialer is always taken, see `decide2`) -/
 def gate (tol x cur : Int) : Bool :=
   decide (x ≤ cur) && (decide (cur < tol) || decide (x ≤ cur - tol))
 
 def scanStep (excl : Option Nat) (acc : Option Nat × Int) (e : Entry) : Option Nat × Int :=
   if excl = some e.d then acc
-  else if e.sl < acc.2 then (some e.d, e.sl) else acc
+  else if acc.1.isNone || decide (e.sl < acc.2) then (some e.d, e.sl) else acc
 
-/-- the `for i := range a.aliveEntries` minimum scans (strict `<`, start value `time.Hour`). -/
+/-- the `for i := range a.aliveEntries` minimum scans: `if best == nil || sl < bestLatency`
+(strict `<`; `time.Hour` is only the start value returned when nobody qualifies). -/
 def scanMin (es : List Entry) (excl : Option Nat) : Option Nat × Int :=
   es.foldl (scanStep excl) (none, hour)
 
@@ -129,7 +131,7 @@ def phase1 (s : ASet) (d : Nat) (alive : Bool) (snap : Option Int) : ASet × Lis
 /-- the decision after a measurement was recorded (`s` = state with the measurement stored,
 `bakL` = cached best latency before) -/
 def decide2 (s : ASet) (d : Nat) (alive : Bool) (sl bakL : Int) : ASet :=
-  if alive && gate s.tol sl s.minL then { s with minL := sl, minD := some d }
+  if alive && (s.minD.isNone || gate s.tol sl s.minL) then { s with minL := sl, minD := some d }
   else if s.minD = some d then
     let s3 := { s with minL := sl }
     if !alive || decide (sl > bakL) then
